@@ -170,3 +170,42 @@ Print Assumptions C20_param_image_shape_refuted.
 Print Assumptions C20_param_peak_refuted.
 Print Assumptions C20_param_samples_at_left_edges.
 Print Assumptions C20_nonvacuous.
+
+(* ---- survival weights (appended): a histogram screen weighs every particle with charge * survival probability *)
+From Cheetah Require Import Diag.ScreenWeights.
+
+(* a pixel of the image is the weighted count (weight = charge * survival) of the particles recorded in it *)
+Theorem C20_pixel_weighted_count : forall s ps r c,
+  at2 (hist_image s ps) r c ==
+  sumQ (map (fun p => if hits (bins_of s p) c (nby s - 1 - r) then p_q p * p_s p else 0) ps).
+Proof. exact pixel_weighted_count. Qed.
+
+(* a lost particle (survival probability 0) is invisible: in every pixel, wherever it is *)
+Theorem C20_lost_particle_invisible : forall s p ps r c, p_s p == 0 ->
+  at2 (hist_image s (p :: ps)) r c == at2 (hist_image s ps) r c.
+Proof. exact lost_invisible. Qed.
+
+(* the image shows the beam with the lost particles deleted *)
+Theorem C20_image_of_survivors : forall s ps r c,
+  at2 (hist_image s ps) r c == at2 (hist_image s (filter (fun p => negb (Qeq_bool (p_s p) 0)) ps)) r c.
+Proof. exact lost_deleted. Qed.
+
+(* fractional survival: only the product charge * survival matters *)
+Theorem C20_weight_is_charge_times_survival : forall s ps r c,
+  at2 (hist_image s ps) r c ==
+  at2 (hist_image s (map (fun p => mkP (p_x p) (p_px p) (p_y p) (p_py p) (p_q p * p_s p) 1) ps)) r c.
+Proof. exact weight_folded. Qed.
+
+(* non-vacuity with fractional and zero survival: charge 2 at survival 1/4 shows as 1/2; the lost particle does not show *)
+Example C20_weighted_nonvacuous :
+  let s := mkscreen 6 4 1 (1#2) (1#4) 0 0 true false in
+  let ps := [mkP (1#4) 0 (1#8) 0 2 (1#4); mkP (1#4) 0 (1#8) 0 1 1; mkP (-(5#4)) 0 (-(3#8)) 0 3 0] in
+  map (map Qred) (to_lists (hist_image s ps)) =
+  [[0;0;0;0;0;0]; [0;0;0;(3#2);0;0]; [0;0;0;0;0;0]; [0;0;0;0;0;0]].
+Proof. vm_compute. reflexivity. Qed.
+
+Print Assumptions C20_pixel_weighted_count.
+Print Assumptions C20_lost_particle_invisible.
+Print Assumptions C20_image_of_survivors.
+Print Assumptions C20_weight_is_charge_times_survival.
+Print Assumptions C20_weighted_nonvacuous.
